@@ -261,4 +261,15 @@ def batchFn (cs : List (Option Nat)) : Option (Nat ⊕ List Nat) :=
   | [c] => some (.inl c)
   | l => some (.inr l)
 
+/-- `Sequentially(cmds...)` of commands.go (deprecated, still public): the command it returns calls
+the given commands one after another ON THE GOROUTINE THAT RUNS IT, skips nil commands, and stops
+at the first command whose result is not nil; that result is its own. A command is
+`none` = nil, or `some (id, r)` = command `id` whose result is nil (`r = false`) or the message `id`.
+Result: what the composite command returns, and the ids of the commands it called, in call order. -/
+def sequentiallyFn : List (Option (Nat × Bool)) → Option Nat × List Nat
+  | [] => (none, [])
+  | none :: cs => sequentiallyFn cs
+  | some (id, true) :: _ => (some id, [id])
+  | some (id, false) :: cs => ((sequentiallyFn cs).1, id :: (sequentiallyFn cs).2)
+
 end Tea.Runtime
